@@ -26,7 +26,7 @@ from vlib import coqlist, zlit
 warnings.filterwarnings("ignore", category=DeprecationWarning)
 
 PROPERTY = "C20"
-MODEL_TARGETS = ["Model/C20Phs.vo"]
+MODEL_TARGETS = ["Model/C20Phs.vo", "Model/C20Order.vo"]
 RULE = ("histories of 1-5 linalg.generic bodies over a common block-argument interface (2-3 data arguments of one "
         "type i8/i32/i64/f32/f64, or a mixed i32/i64 interface with extsi/trunci), 1-4 operations each from "
         "addi subi muli andi ori xori maxsi minsi shli / addf subf mulf divf maximumf minimumf (+ negf, select, "
@@ -206,7 +206,7 @@ class Conv:
 
 
 # ---------------------------------------------------------------- Coq literals
-HEADER = """From Snax Require Import Base.Prelude Model.C20Phs.
+HEADER = """From Snax Require Import Base.Prelude Model.C20Phs Model.C20Order.
 Definition A (i : Z) := SArg (Z.to_nat i).
 Definition C (s : sig) (n : Z) := SChoose (s, Z.to_nat n).
 Definition M (s : Z) (l r : src) := SMux (Z.to_nat s) l r.
@@ -800,7 +800,7 @@ def correspondence(ctx):
     rng = ctx.rng
     n = ctx.n(70, 600)
     _REG.clear()
-    cases = {k: [] for k in ("enc", "app", "dec", "tsw", "wf", "kok")}
+    cases = {k: [] for k in ("enc", "app", "dec", "tsw", "wf", "kok", "ord")}
     meta = {k: [] for k in cases}
     conv = Conv()
     for i in range(n):
@@ -845,6 +845,9 @@ def correspondence(ctx):
             # every real merged graph)
             cases["wf"].append(c_pe(cG))
             meta["wf"].append(dict(texts=texts, order=order, step=step))
+            # class predicate of C20-F2: the model's block_ordered against SSA dominance in the real block
+            cases["ord"].append(f"({c_pe(cG)}, {'true' if block_ordered(G) else 'false'})")
+            meta["ord"].append(dict(texts=texts, order=order, step=step))
             # decode every kernel of the history (also the ones not merged yet: error / default paths)
             merged = set(order[:step + 1])
             extra = order[step + 1] if step + 1 < len(order) else None
@@ -865,10 +868,11 @@ def correspondence(ctx):
         "tsw": "fun c : pe * option nat => opt_eqb Nat.eqb (true_switches (fst c)) (snd c)",
         "wf": "pe_wf",
         "kok": "fun g : pe => is_concrete g && nodup_ids (map nid (pnodes g)) && pe_wf g",
+        "ord": "fun c : pe * bool => Bool.eqb (block_ordered (fst c)) (snd c)",
     }
     # shards: few files (every coqc start costs seconds), each with one list per kind
     types = {"enc": "body * option pe", "app": "pe * pe * option pe", "dec": "pe * pe * option (list Z)",
-             "tsw": "pe * option nat", "wf": "pe", "kok": "pe"}
+             "tsw": "pe * option nat", "wf": "pe", "kok": "pe", "ord": "pe * bool"}
     kinds = list(tests)
     NSH = 4 if not ctx.thorough else 8
     shards = [{k: [] for k in kinds} for _ in range(NSH)]
